@@ -157,6 +157,8 @@ fn no_trace(op: &OpRec, probes: (&ProbeRec, &ProbeRec), identifier_too: bool) ->
     None
 }
 
+const PARKED_REASON: &str = "parked in the arena by the first call";
+
 impl Check for C19 {
     fn id(&self) -> &'static str {
         "C19"
@@ -165,19 +167,19 @@ impl Check for C19 {
         "exploration"
     }
     fn rule(&self) -> String {
-        "EXHAUSTIVE enumeration of 27 property kinds x {publish, will, subscribe, unsubscribe, disconnect, publish built with correlate(), reply()/reply_owned() publication with caller properties} x value variants (legal, boundary, illegal) x session states {idle, in-flight work with withheld acks, handle dead after a broker DISCONNECT, send window used up, all eight in-flight slots used, handle dead after a keep-alive timeout, an earlier disconnect() given up before any byte went out (a request refused there also leaves retained table, quota, identifier counter and handle statuses as they were)} against a reference table written from the MQTT 5.0 text (Accept / Reject / DontCare): Reject => documented error (InvalidRequest also when the request could not have been admitted anyway) and no trace (no byte of the request written, snapshot incl. the identifier counter, handle statuses, quiescence and can_publish unchanged); Accept => the request succeeds with ample buffers and the property is decoded from the wire with the same value; plus empty SUBSCRIBE/UNSUBSCRIBE lists, sets of several legal properties on one request (repeated User Properties, one of every legal kind together) in each of the five base contexts, and Maximum QoS {absent,0,1} x requested {0,1,2} x auto-downgrade {on,off} x {idle, in-flight work, dead handle, resumed reconnect after a different Maximum QoS, fresh reconnect after a different Maximum QoS}: no PUBLISH above the maximum on the wire, returned handle kind (none / completed by PUBACK / completed by PUBCOMP) matches the QoS sent. Every cell is a distinct non-trivial case. Plus requests-after-random-histories (400 quick / 600 000 thorough): a generated history from one of five profiles, then a request in one of five contexts with one to three properties drawn from the same variants: an illegal one never returns Ok, nothing of it (marker topic / filter) ever reaches the wire, InvalidRequest leaves retained table, quota, PUBREL table and identifier counter unchanged; a legal one is never answered InvalidRequest and what reaches the wire carries exactly the requested properties.".into()
+        "EXHAUSTIVE enumeration of 27 property kinds x {publish, will, subscribe, unsubscribe, disconnect, publish built with correlate(), reply()/reply_owned() publication with caller properties} x value variants (legal, boundary, illegal) x session states {idle, in-flight work with withheld acks, handle dead after a broker DISCONNECT, send window used up, all eight in-flight slots used, handle dead after a keep-alive timeout, an earlier disconnect() given up before any byte went out (a request refused there also leaves retained table, quota, identifier counter and handle statuses as they were), an earlier disconnect_with() with properties - parked in the transmit arena - given up after a few of its bytes went out (whatever the next request is and returns, the wire then carries exactly the DISCONNECT the first call asked for)} against a reference table written from the MQTT 5.0 text (Accept / Reject / DontCare): Reject => documented error (InvalidRequest also when the request could not have been admitted anyway) and no trace (no byte of the request written, snapshot incl. the identifier counter, handle statuses, quiescence and can_publish unchanged); Accept => the request succeeds with ample buffers and the property is decoded from the wire with the same value; plus empty SUBSCRIBE/UNSUBSCRIBE lists, sets of several legal properties on one request (repeated User Properties, one of every legal kind together) in each of the five base contexts, and Maximum QoS {absent,0,1} x requested {0,1,2} x auto-downgrade {on,off} x {idle, in-flight work, dead handle, resumed reconnect after a different Maximum QoS, fresh reconnect after a different Maximum QoS}: no PUBLISH above the maximum on the wire, returned handle kind (none / completed by PUBACK / completed by PUBCOMP) matches the QoS sent. Every cell is a distinct non-trivial case. Plus requests-after-random-histories (400 quick / 600 000 thorough): a generated history from one of five profiles, then a request in one of five contexts with one to three properties drawn from the same variants: an illegal one never returns Ok, nothing of it (marker topic / filter) ever reaches the wire, InvalidRequest leaves retained table, quota, PUBREL table and identifier counter unchanged; a legal one is never answered InvalidRequest and what reaches the wire carries exactly the requested properties.".into()
     }
     fn assumptions(&self) -> Vec<String> {
         vec!["the reference table (requests.rs::verdict, DESIGN.md appendix A) is a correct reading of MQTT 5.0".into(), "string content rules (wildcards in a response topic, U+0000) are invalid user input and not generated".into()]
     }
     fn workloads(&self) -> Vec<Workload> {
-        vec![Workload { name: "property-cells", quick: 27 * 7 * 7, thorough: 27 * 7 * 7 }, Workload { name: "qos-cap-cells", quick: 5 * 3 * 2 * 3, thorough: 5 * 3 * 2 * 3 }, Workload { name: "empty-lists", quick: 6, thorough: 6 }, Workload { name: "legal-sets", quick: 15, thorough: 15 }, Workload { name: "requests-after-random-histories", quick: 400, thorough: 600_000 }, Workload { name: "long-property-blocks", quick: 96, thorough: 96 }]
+        vec![Workload { name: "property-cells", quick: 27 * 8 * 7, thorough: 27 * 8 * 7 }, Workload { name: "qos-cap-cells", quick: 5 * 3 * 2 * 3, thorough: 5 * 3 * 2 * 3 }, Workload { name: "empty-lists", quick: 6, thorough: 6 }, Workload { name: "legal-sets", quick: 15, thorough: 15 }, Workload { name: "requests-after-random-histories", quick: 400, thorough: 600_000 }, Workload { name: "long-property-blocks", quick: 96, thorough: 96 }]
     }
     fn min_nontrivial(&self, _tier: Tier) -> usize {
         400
     }
     fn required_counters(&self) -> Vec<&'static str> {
-        vec!["cells_accept", "cells_reject", "no_trace_comparisons", "downgrade_cells", "dead_handle_cells", "blocked_state_cells", "qos_cap_cells_after_reconnect", "reply_cells", "legal_set_cells", "dead_by_keepalive_timeout_cells", "random_history_requests", "random_history_rejects_judged", "random_history_rejects_reported_invalid", "closing_handle_cells", "long_property_block_cells"]
+        vec!["cells_accept", "cells_reject", "no_trace_comparisons", "downgrade_cells", "dead_handle_cells", "blocked_state_cells", "qos_cap_cells_after_reconnect", "reply_cells", "legal_set_cells", "dead_by_keepalive_timeout_cells", "random_history_requests", "random_history_rejects_judged", "random_history_rejects_reported_invalid", "closing_handle_cells", "long_property_block_cells", "parked_disconnects_partly_sent_when_the_next_request_came"]
     }
     fn exhaustive(&self) -> bool {
         true
@@ -215,9 +217,11 @@ impl Check for C19 {
                 // ... 5 handle dead because a PINGREQ went unanswered
                 // ... 6 an earlier disconnect() was given up before any byte went out (it is parked
                 // and the next operation completes it)
-                let state = (index % 7) as u8;
-                let ctx = CTXS[((index / 7) % 7) as usize];
-                let id = ALL_PROP_IDS[(index / 49) as usize];
+                // ... 7 an earlier disconnect_with() carrying properties (its DISCONNECT is parked in
+                // the free part of the transmit arena) was given up after a few of its bytes went out
+                let state = (index % 8) as u8;
+                let ctx = CTXS[((index / 8) % 7) as usize];
+                let id = ALL_PROP_IDS[(index / 56) as usize];
                 if ctx == Ctx::Reply {
                     // the reply is encoded on an auxiliary, freshly connected session: one state only
                     if state != 0 {
@@ -306,6 +310,12 @@ impl Check for C19 {
                         }
                         steps.push(Step::Disconnect(DiscSpec { reason: Some(4), props: None, cancel_at: Some(1) }));
                     }
+                    if state == 7 {
+                        if let Some(Step::Connect(c)) = steps.first_mut() {
+                            c.policy = IoPolicy { write: Chunk::One, pend_write: Pend::Always, ..IoPolicy::default() };
+                        }
+                        steps.push(Step::Disconnect(DiscSpec { reason: Some(4), props: Some(vec![Prop::ReasonString(PARKED_REASON.into())]), cancel_at: Some(4) }));
+                    }
                     let req_at = steps.len();
                     if ctx != Ctx::Will {
                         steps.push(request_step(ctx, &p));
@@ -339,7 +349,24 @@ impl Check for C19 {
                         let pb = t.log.probes.iter().rev().find(|q| q.ev < op.ev_call);
                         let pa = t.log.probes.iter().find(|q| q.ev > op.ev_ret);
                         let wrote = op.out_after != op.out_before;
-                        if state == 6 {
+                        if state == 7 {
+                            // whatever this call was and whatever it returned: what goes out is the
+                            // DISCONNECT the first call asked for, whole, and nothing of this request
+                            out.count("closing_handle_cells_with_a_parked_disconnect_partly_sent", 1);
+                            let c = &t.w.conns[0];
+                            let first_call = t.log.ops.iter().find(|o| o.kind == "disconnect" && o.step < req_at);
+                            let partly = first_call.is_some_and(|o| o.outcome == Outcome::Cancelled && o.out_after > o.out_before);
+                            if partly {
+                                out.count("parked_disconnects_partly_sent_when_the_next_request_came", 1);
+                                let discs: Vec<&CPacket> = c.out.packets.iter().map(|k| &k.pkt).filter(|k| matches!(k, CPacket::Disconnect { .. })).collect();
+                                let want = vec![Prop::ReasonString(PARKED_REASON.into())];
+                                let ok = c.out.error.is_none() && c.out.dangling() == 0 && discs.len() == 1 && matches!(discs[0], CPacket::Disconnect { reason: 4, props } if *props == want);
+                                if !ok {
+                                    out.violations.push(viol("C19", format!("C19/closing-handle/{:?}/parked-disconnect-altered", ctx), format!("disconnect_with(reason 4, Reason String) given up after {} bytes, then {:?} with {:?} (returned {:?}), then poll(): the wire carries {:?} (stream error {:?}, {} dangling bytes)", first_call.map(|o| o.out_after - o.out_before).unwrap_or(0), ctx, pc, op.outcome, discs, c.out.error, c.out.dangling())));
+                                }
+                            }
+                        }
+                        if state == 6 || state == 7 {
                             // the handle is closing: a DISCONNECT request is still judged on its own
                             // (refused if illegal, otherwise it completes the pending one); every
                             // other request is refused one way or the other
@@ -359,7 +386,7 @@ impl Check for C19 {
                             if !good {
                                 out.violations.push(viol("C19", format!("C19/closing-handle/{:?}/{:?}", ctx, v).to_lowercase(), format!("{:?} with {:?} ({:?}) while an earlier disconnect() is pending returned {:?}", ctx, pc, v, op.outcome)));
                             }
-                            if v == V::Reject && ctx == Ctx::Disconnect && wrote {
+                            if v == V::Reject && ctx == Ctx::Disconnect && wrote && state == 6 {
                                 out.violations.push(viol("C19", "C19/closing-handle/disconnect/refused-but-wrote", format!("disconnect with the illegal property {:?} returned {:?} but wrote {} bytes", pc, op.outcome, op.out_after - op.out_before)));
                             }
                             // ... and a request refused here is not kept by the session either
@@ -377,7 +404,7 @@ impl Check for C19 {
                             }
                             // nothing of the request reaches the wire
                             let c = &t.w.conns[0];
-                            if c.out.packets.iter().any(|k| matches!(&k.pkt, CPacket::Publish { topic, .. } if topic == "c19") || matches!(&k.pkt, CPacket::Subscribe { .. } | CPacket::Unsubscribe { .. }) || matches!(&k.pkt, CPacket::Disconnect { props, .. } if !props.is_empty())) {
+                            if c.out.packets.iter().any(|k| matches!(&k.pkt, CPacket::Publish { topic, .. } if topic == "c19") || matches!(&k.pkt, CPacket::Subscribe { .. } | CPacket::Unsubscribe { .. }) || matches!(&k.pkt, CPacket::Disconnect { props, .. } if !props.is_empty() && state == 6)) {
                                 out.violations.push(viol("C19", "C19/closing-handle/request-on-wire", format!("{:?} with {:?} while an earlier disconnect() is pending: the request reached the wire", ctx, pc)));
                             }
                             return;
